@@ -247,3 +247,24 @@ package gcrypto
 //@   ensures independent-state: fresh(unbox(result, SimpleCommonMessageSignatureProof).bitset) && fresh(unbox(result, SimpleCommonMessageSignatureProof).sigs) &&
 //@       fresh(unbox(result, SimpleCommonMessageSignatureProof).keyIdxs) && len(unbox(result, SimpleCommonMessageSignatureProof).sigs) == 0
 //@   modifies nothing
+
+// ---- Finalize: the finalized proof names the main proof's keys, key hash and message (C13) ----
+//@ func SimpleCommonMessageSignatureProofScheme.Finalize
+//@   property C13
+//@   requires istype(main, SimpleCommonMessageSignatureProof) && SInv(unbox(main, SimpleCommonMessageSignatureProof))
+//@   requires forall i int :: 0 <= i && i < len(rest) ==> istype(rest[i], SimpleCommonMessageSignatureProof) && SInv(unbox(rest[i], SimpleCommonMessageSignatureProof))
+//@   ensures names-the-main-proof: result.Keys == unbox(main, SimpleCommonMessageSignatureProof).keys && result.PubKeyHash == unbox(main, SimpleCommonMessageSignatureProof).keyHash &&
+//@       bytes(result.MainMessage) == bytes(unbox(main, SimpleCommonMessageSignatureProof).msg)
+//@   ensures no-rest-no-map: len(rest) == 0 ==> result.Rest == nil
+//@   ensures every-other-message-has-an-entry: len(rest) > 0 ==> result.Rest != nil &&
+//@       (forall i int :: 0 <= i && i < len(rest) ==> (bytes(unbox(rest[i], SimpleCommonMessageSignatureProof).msg) in result.Rest))
+//@   modifies nothing
+//@   loop 1 invariant entries-so-far: f.Rest != nil && fresh(f.Rest) &&
+//@       (forall i int :: 0 <= i && i <= rangeindex ==> (bytes(unbox(rest[i], SimpleCommonMessageSignatureProof).msg) in f.Rest))
+
+// AsSparse only reads the proof: it changes nothing the caller can see, and names the proof's key hash.
+//@ func SimpleCommonMessageSignatureProof.AsSparse
+//@   property C13
+//@   requires SInv(p)
+//@   ensures names-the-key-hash: result.PubKeyHash == p.keyHash
+//@   modifies nothing
